@@ -14,9 +14,22 @@ HEADER = ('From Coq Require Import List NArith ZArith String.\n'
 
 
 def coq_str(s):
-    if all(32 <= ord(c) < 127 and c != '"' for c in s):
-        return '(of_ascii "%s")' % s
-    return '[' + '; '.join('%d%%N' % ord(c) for c in s) + ']'
+    """pystr term: printable ASCII runs (and LF) as string literals (a double quote is written twice), anything else
+    as explicit code points"""
+    if s == '': return '[]'
+    parts = []; run = []; other = []
+    def flush_run():
+        if run: parts.append('of_ascii "%s"' % ''.join(run).replace('"', '""')); run.clear()
+    def flush_other():
+        if other: parts.append('[' + '; '.join('%d%%N' % c for c in other) + ']'); other.clear()
+    for ch in s:
+        o = ord(ch)
+        if 32 <= o < 127 or o == 10:
+            flush_other(); run.append(ch)
+        else:
+            flush_run(); other.append(o)
+    flush_run(); flush_other()
+    return '(' + ' ++ '.join(parts) + ')%list' if len(parts) > 1 else '(' + parts[0] + ')'
 
 
 def float_me(x):
